@@ -316,6 +316,7 @@ fn run_odd_page_size(case: &Case, size: u64, pages: u64, seed: u64, flip: Option
 }
 
 fn run_case(case: &Case, st: &mut RunStats) -> Outcome<Case> {
+    set_poll_after_error(true);
     if let Alter::OddPageSize { size, pages, seed, flip } = &case.alter {
         return run_odd_page_size(case, *size, *pages, *seed, *flip, st);
     }
@@ -422,7 +423,7 @@ impl Prop for C07 {
     fn meta(&self) -> Meta {
         Meta {
             level: "fault_enumeration",
-            rule: "pristine file (crate writer or refcodec producer, 2-40 pages, several sections) -> alteration -> reader history. Run indices 0..4 (0..24 in thorough) enumerate EVERY single-bit flip of every page of a small file, each judged with validate_crc, raw_xml, open, xml, listings, raw + simple iteration of every cloud and every blob. Other indices sample alterations (1-3 bit flips in a page, bursts <= 32 bits, 1-64 byte overwrites, checksum-only damage, zeroed bytes, header bytes of page 0, two pages; every eighth run a near-miss checksum: the right CRC-32C in little-endian order, its complement, or the IEEE CRC-32 of the - possibly altered - payload) applied before open, BETWEEN two operations of a 1-8 operation history (a page goes bad while it may be the cached page), or at a drawn device-operation instant INSIDE whatever call is in progress (SimDisk's Mutate fault). Every sixteenth run instead builds a paged byte string with a page size other than 1024 (64..70001, all residues modulo 8; checksums by the independent CRC) for the static validate_crc / raw_xml, with or without one flipped bit. Oracle: validate_crc is Ok on the pristine file and Err on every altered one (altered = independent bitwise CRC-32C of a page payload differs from its stored big-endian checksum; an alteration that is not detectable this way, a 2^-32 event, is counted and skipped); every operation is Err or equals the pristine result, also after earlier failures on the same reader; pages written by the library carry the independent CRC-32C; the whole batch is executed by a second harness build with the crc32c cargo feature and the per-run digests (file bytes, results) must be identical. Distinct = alteration shape x history; every enumerated alteration is non-trivial".into(),
+            rule: "pristine file (crate writer or refcodec producer, 2-40 pages, several sections) -> alteration -> reader history. Run indices 0..4 (0..24 in thorough) enumerate EVERY single-bit flip of every page of a small file, each judged with validate_crc, raw_xml, open, xml, listings, raw + simple iteration of every cloud and every blob. Other indices sample alterations (1-3 bit flips in a page, bursts <= 32 bits, 1-64 byte overwrites, checksum-only damage, zeroed bytes, header bytes of page 0, two pages; every eighth run a near-miss checksum: the right CRC-32C in little-endian order, its complement, or the IEEE CRC-32 of the - possibly altered - payload) applied before open, BETWEEN two operations of a 1-8 operation history (a page goes bad while it may be the cached page), or at a drawn device-operation instant INSIDE whatever call is in progress (SimDisk's Mutate fault). Every 64th run is a file beyond 1 MiB (one payload of 1.1..1.6 MiB) with one altered page more than 1030 pages into it, read in one sequential run and by validate_crc. Iterators are polled three more times after their first error; whatever they hand out then must be what the unaltered file gives at that position. Every sixteenth run instead builds a paged byte string with a page size other than 1024 (64..70001, all residues modulo 8; checksums by the independent CRC) for the static validate_crc / raw_xml, with or without one flipped bit. Oracle: validate_crc is Ok on the pristine file and Err on every altered one (altered = independent bitwise CRC-32C of a page payload differs from its stored big-endian checksum; an alteration that is not detectable this way, a 2^-32 event, is counted and skipped); every operation is Err or equals the pristine result, also after earlier failures on the same reader; pages written by the library carry the independent CRC-32C; the whole batch is executed by a second harness build with the crc32c cargo feature and the per-run digests (file bytes, results) must be identical. Distinct = alteration shape x history; every enumerated alteration is non-trivial".into(),
             assumptions: vec![
                 "E57Reader::header() and the static raw_xml on a damaged page 0 are outside the property's list of read operations".into(),
                 "misplaced pages that carry their own valid checksum are not 'altered pages' in the sense of this property".into(),
@@ -511,6 +512,23 @@ impl Prop for C07 {
             let pages = 1 + f.below(6);
             let flip = if f.chance(1, 2) { Some(f.next_u64()) } else { None };
             return Case { prog, source, alter: Alter::OddPageSize { size, pages, seed: f.next_u64(), flip }, hist: vec![], rchunk };
+        }
+        if rc.index % 64 == 37 {
+            // a file beyond 1 MiB: one payload of 1.1..1.6 MiB, one altered page more than 1024
+            // pages into it, read in one sequential run (and by validate_crc)
+            let mut f = Rng::stream(rc.run_seed, "fault");
+            let len = 1_150_000 + f.usize_below(500_000);
+            let prog = Program {
+                guid: gen_guid(&mut f),
+                calls: vec![Call::Blob { data: crate::model::Bytes::draw(&mut f, len), pipe: Chunk::Full, fail_after: None }],
+                end: End::Finalize,
+                knob: None,
+                on_error: OnError::Stop,
+            };
+            let page = 1030 + f.below((len as u64 / 1020).saturating_sub(1035).max(1));
+            let patches = vec![Patch::Xor { offset: page * 1024 + f.below(1024), mask: 1 << f.below(8) }];
+            let hist = vec![ROp::Blob { which: 0, sink: Chunk::Full }];
+            return Case { prog, source: Source::Writer, alter: Alter::Patches { patches, after_op: None }, hist, rchunk: Chunk::Full };
         }
         let mut h = Rng::stream(rc.run_seed, "hist");
         let hlen = 1 + h.usize_below(8);
